@@ -40,7 +40,7 @@ RULE = ("cases come from four structured generators (names at the 63/255 limits,
         "one-octet/one-escape scope; distinct = distinct canonical case; non-trivial = the implementation returned a value, "
         "or an error class not yet seen for that case kind")
 
-MODEL_OPS = (1, 4, 5, 6, 7, 8, 9, 10, 11, 12, 13, 14, 15, 16, 17, 18, 24)
+MODEL_OPS = (1, 4, 5, 6, 7, 8, 9, 10, 11, 12, 13, 14, 15, 16, 17, 18, 24, 25)
 
 
 # ------------------------------------------------------------------ small helpers
@@ -226,9 +226,13 @@ def name_cases(ctx, n):
         c = completing(ctx, n, True)
         if c is not None and nl.fits(c):
             o = c
-    yield "to_wire", [6, n, o, rng.randrange(2)]
+    cn = rng.randrange(2)
+    yield "to_wire", [6, n, o, cn]
+    yield "to_wire_file", [25, n, o, cn]
     if rng.random() < 0.5:
-        yield "to_wire", [6, rel, gen_origin(ctx, ("none", "abs", "abs", "rel", "root")), rng.randrange(2)]
+        o2 = gen_origin(ctx, ("none", "abs", "abs", "rel", "root"))
+        yield "to_wire", [6, rel, o2, cn]
+        yield "to_wire_file", [25, rel, o2, 1 - cn]
     # concatenate
     r = rng.random()
     if r < 0.45:
@@ -1000,6 +1004,48 @@ def deep_chain_cases(ctx):
             yield "from_wire_tr", [17, m, starts[k]]
             yield "wire_chain_rt", [38, m, starts[k], k]
 
+
+# ------------------------------------------------------------------ generator 8: origin totals, text under an origin
+
+TRICKY_LAST = [b".", b"a.", b"www.", b"\\", b"a\\", b"\\.", b".\\", b"1", b"a1", b"065", b"a\\065", b"\\0", b"x\\00", b"@", b"a@", b"$",
+               b" ", b"a ", b"\x00", b"a\xff", b"..", b"a.b.", b"9.", b"\\\\", b"a;", b'a"', b"a(", b"a)"]
+
+
+def origin_cases(ctx, n):
+    rng = ctx.rng
+    # (a) relative name + absolute origin with combined encoded length 253..258, all three to_wire shapes
+    for _ in range(n):
+        tot = rng.choice([253, 254, 255, 255, 256, 256, 257, 258])
+        wo = rng.choice([1, 2, 9, 64, 100, 128, 200])
+        if tot - wo < 2:
+            continue
+        o = name_total(rng, wo, True) if wo > 1 else [b""]
+        rel = name_total(rng, tot - wo, False)
+        if not (nl.fits(o) and nl.fits(rel)):
+            continue
+        ctx.count("to_wire:rel+origin-total%d" % tot)
+        for cn in (0, 1):
+            yield "to_wire", [6, rel, o, cn]
+            yield "to_wire_file", [25, rel, o, cn]
+        yield "compress", [7, [rel], o, 0]
+        yield "derel", [11, rel, o]
+        yield "from_text", [5, nl.N(rel).to_text().encode("latin-1"), o]
+    # (b) text round trip under an origin: the LAST label ends in '.', a backslash, digits, ...
+    for i in range(n * 2):
+        last = TRICKY_LAST[i % len(TRICKY_LAST)] if rng.random() < 0.8 else rand_octets(rng, rng.randint(1, 5))
+        pre = small_labels(rng, rng.choice([0, 0, 1, 2]), 4)
+        nrel = pre + [last]
+        for nme in (nrel, nrel + [b""]):
+            if not nl.fits(nme):
+                continue
+            for o in (None, [b""], [b"example", b""], gen_origin(ctx, ("abs", "rel", "empty"))):
+                ctx.count("text:roundtrip-under-origin")
+                yield "rt_text_origin", [39, nme, o]
+                yield "from_text", [5, nl.N(nme).to_text().encode("latin-1"), o]
+    for _ in range(n):
+        nme = gen_valid(ctx)
+        yield "rt_text_origin", [39, nme, gen_origin(ctx, ("none", "root", "abs", "abs", "rel"))]
+
 # ------------------------------------------------------------------ cases
 
 
@@ -1049,6 +1095,9 @@ def cases(ctx):
     # ---- 3. wire
     yield from wire_cases(ctx, ctx.n(70, 1300), ctx.n(260, 5200), ctx.n(4, 10))
 
+    # ---- 8. totals with an origin (three to_wire call shapes), text round trip under an origin
+    yield from origin_cases(ctx, ctx.n(60, 400))
+
     # ---- 7. deep suffix / pointer chains
     yield from deep_chain_cases(ctx)
 
@@ -1089,6 +1138,16 @@ def impl(case):
             t = n.to_text()
             tb = t.encode("latin-1")
             return [tb, _labels_or_err(lambda: dns.name.from_text(t, None)), _labels_or_err(lambda: dns.name.from_text(tb, None))]
+        if op == 39:
+            n = nl.N(case[1])
+            o = nl.oname(case[2])
+            t = n.to_text()
+            res = [_labels_or_err(lambda: dns.name.from_text(t, o)),
+                   _labels_or_err(lambda: dns.name.from_text(t.encode("latin-1"), o)),
+                   _labels_or_err(lambda: dns.tokenizer.Tokenizer(t + " x\n").get_name(origin=o))]
+            if o is not None and o == dns.name.root:
+                res.append(_labels_or_err(lambda: dns.name.from_text(t)))  # default origin = root
+            return res
         if op == 38:
             n, c = dns.name.from_wire(bytes(case[1]), case[2])
             return [nl.labels_of(n), c]
@@ -1276,6 +1335,8 @@ def _oracle(ctx, kind, case, out):
         produced = [out]
     elif op == 34:
         produced = [x for x in out if not isinstance(x, Err)]
+    elif op == 39:
+        produced = [x for x in out if not isinstance(x, Err)]
     elif op == 38:
         produced = [out[0]]
     elif op == 37:
@@ -1314,6 +1375,20 @@ def _oracle(ctx, kind, case, out):
                 fail("from_text(to_text(n)) != n (%s input)" % how)
         if back_s != back_b:
             fail("from_text disagrees between str and bytes input")
+    elif op == 39:
+        # from_text(to_text(n), origin) must be n made absolute with the origin (derelativize):
+        # n itself when absolute or without origin, else n + origin (NameTooLong when that is too long)
+        n, o = case[1], case[2]
+        want = n if (is_abs(n) or o is None) else n + o
+        names = ["from_text(str)", "from_text(bytes)", "Tokenizer.get_name", "from_text(default origin)"]
+        for how, b in zip(names, out):
+            if how == "Tokenizer.get_name" and o is not None and not is_abs(o):
+                continue  # get_name derelativizes once more with a relative origin: not stated here
+            if isinstance(b, Err):
+                if nl.fits(want) or bad_exc(op, b) or b.code != 2:
+                    fail(how + " rejects to_text(n) under an origin: " + b.text)
+            elif b != want:
+                fail(how + "(to_text(n), origin) is not n derelativized with the origin")
     elif op == 37:
         enc_ls = [bytes(l) for _, l in case[1]]
         ls, allbytes, wire, text = out
@@ -1376,8 +1451,8 @@ def _oracle(ctx, kind, case, out):
                 fail("from_wire(to_wire(n)) != n")
             if consumed != wlen:
                 fail("from_wire consumed != len(to_wire(n))")
-    elif op == 6:
-        # to_wire without compression: at most 255 octets, and it parses back to the name
+    elif op in (6, 25):
+        # to_wire without compression (6: no file; 25: file given, no table): at most 255 octets, and it parses back to the name
         # (made absolute with the origin) byte-identically unless canonicalize lower-cased it
         n, origin, canon = case[1], case[2], case[3]
         full = n if is_abs(n) or origin is None else n + origin
